@@ -13,7 +13,7 @@ import (
 func c07Cfg(opts flags.Options) *DeclCfg {
 	types := []TypeSpec{{K: KString}, {K: KBool}, {K: KBool}, {K: KInt}, {K: KString, W: WSlice}, {K: KBool, W: WSlice}, {K: KFloat64}, {K: KString, W: WMap, MapKey: KString}}
 	return &DeclCfg{
-		MaxDepth: 3, MaxFan: 3, PCmds: 70, Types: types, OptsMin: 1, OptsMax: 4, SubGroupsMax: 1, NestMax: 2,
+		MaxDepth: 3, MaxFan: 3, PCmds: 70, Types: types, OptsMin: 1, OptsMax: 4, SubGroupsMax: 1, PInline: 20, NestMax: 2,
 		PNamespace: 45, PShortOnly: 15, PLongOnly: 20, PClash: 10, NonASCII: true, PNoFlag: 35,
 		PPos: 35, PosMax: 2, PRest: 40, PPosLongTag: 50, PNamedRest: 30, PExec: 40, PByTag: 50, PSubOptional: 45, PAliases: 20,
 		ParserOpts: []flags.Options{opts}, NsDelims: []string{"", ".", "-", "::"}, PosTypes: []TypeSpec{{K: KString}},
